@@ -6,6 +6,16 @@ from sa.astutil import (call_name, calls_in, dotted, fact_texts, last_attr, norm
 from sa.loader import AnalysisError
 
 
+def is_nonempty_test(test, text):
+    """Does ``test`` hold exactly when the container written ``text`` is
+    non-empty?  Accepts every spelling the loader leaves of it: truthiness,
+    ``len(x)``, ``0 < len(x)``, ``1 <= len(x)``, ``len(x) != 0``."""
+    t = norm(test).replace(' ', '')
+    x = text.replace(' ', '')
+    return t in (x, 'len(%s)' % x, '0<len(%s)' % x, '1<=len(%s)' % x,
+                 'len(%s)!=0' % x, '0!=len(%s)' % x)
+
+
 def resolve_self_method(mod, cls, call):
     """FunctionDef for ``self.m(...)`` inside class ``cls`` of ``mod``."""
     if isinstance(call.func, ast.Attribute) and dotted(call.func.value) == 'self':
